@@ -183,3 +183,28 @@ pub fn pat(stream_tag: u8, dir: u8, i: usize) -> u8 {
 pub fn pat_vec(stream_tag: u8, dir: u8, from: usize, len: usize) -> Vec<u8> {
     (from..from + len).map(|i| pat(stream_tag, dir, i)).collect()
 }
+
+/// A real client session linked to a real server session over two vpipes.
+pub struct Pair {
+    pub client: Arc<Session>,
+    pub server: Arc<Session>,
+    pub accepted: UnboundedReceiver<Arc<Stream>>,
+    /// client writes / server reads
+    pub c2s: Pipe,
+    /// server writes / client reads
+    pub s2c: Pipe,
+}
+
+pub async fn linked_pair(
+    c2s: PipeCfg,
+    s2c: PipeCfg,
+    client_scheme: &str,
+    server_scheme: &str,
+    hb: Option<SessionHeartbeatConfig>,
+) -> anytls_rs::Result<Pair> {
+    let (cw, sr, p1) = pipe(c2s);
+    let (sw, cr, p2) = pipe(s2c);
+    let side = start_server_session(sr, sw, padding(server_scheme), None);
+    let client = start_client_session(cr, cw, padding(client_scheme), hb, 0).await?;
+    Ok(Pair { client, server: side.sess, accepted: side.streams, c2s: p1, s2c: p2 })
+}
